@@ -326,6 +326,20 @@ def ref_matmul(a, b):
     return shape, {k: v for k, v in out.items() if v != 0}
 
 
+def matmul_work(a, b):
+    """number of (a-entry, b-entry) products of a 2-d @ 2-d product: the `work` of Cost.dotCsrCsr"""
+    per_row = {}
+    for cb in b["coords"]:
+        per_row[cb[0]] = per_row.get(cb[0], 0) + 1
+    return sum(per_row.get(ca[-1], 0) for ca in a["coords"])
+
+
+# seconds for a warm-up call (JIT compilation for the operands' index dtypes: up to ~15 s on a loaded machine) plus the measured call of one
+# sparse @ sparse product of two (10^6)^2 operands (measured: 0.02 - 0.4 s; 350 s with the per-row reset); the measured call alone must
+# also stay within time_budget(size) = 22 s
+HUGE_DEADLINE = 60
+
+
 def unmodelled_cases(rng, quick):
     """(family, worker case, reference (shape, dict) | None, deadline, expected finding id | None, size)"""
     cs = []
@@ -342,26 +356,26 @@ def unmodelled_cases(rng, quick):
     cs.append(("product:1d.1d", {"op": "product", "kind": "dot", "a": x1, "b": y1}, ref_matmul(x1, y1), 60, None, cells(x1) * 2 + BIG))
     cs.append(("product:2d@1d", {"op": "product", "kind": "matmul", "a": x2, "b": v1}, ref_matmul(x2, v1), 60, None, size2))
     cs.append(("product:1d@2d", {"op": "product", "kind": "matmul", "a": v1, "b": b2}, ref_matmul(v1, b2), 60, None, size2))
-    # sparse @ sparse, 2-d: rows*cols resets in _dot_coo_coo / _dot_csr_csr (known finding): a moderate size that completes, and the huge one
+    # sparse @ sparse, 2-d (_dot_coo_coo / _dot_csr_csr): moderate sizes, and the (10^6)^2 operands that did not finish while the kernels
+    # reset next_[:] = -1 once per result row (fixed: 4b845d6; 350 s measured then, ~0.3 s now).  The huge ones are must-pass cases
+    # with a deadline of 60 s (warm-up included); they keep a lane of their own, behind a small product of the same kind, so that the deadline
+    # measures the kernel and not its JIT compilation, and so that a regression cannot starve the other cases of their time.
     for n_ in ((30000,) if quick else (20000, 40000, 80000)):
         a = rand_coo(rng, (n_, n_), 300)
         colsa = [c[1] for c in a["coords"][:40]]
         bb = sorted({(c, int(rng.integers(0, n_))) for c in colsa})
         b = {"shape": [n_, n_], "coords": [list(p) for p in bb], "data": [int(rng.integers(1, 5)) for _ in bb], "fill": 0}
-        cs.append((f"product:coo@coo:{n_}", {"op": "product", "kind": "matmul", "a": a, "b": b}, ref_matmul(a, b), 90, None, None))
-        cs.append((f"product:gcxs@gcxs:{n_}", {"op": "product", "kind": "matmul", "a": a, "b": b, "format_a": G0, "format_b": G0}, ref_matmul(a, b), 90, None, None))
-    # the huge ones run in a lane of their own (they are expected to miss the deadline); a small product of the same kind goes
-    # first in that lane so that the deadline measures the kernel, not its JIT compilation
+        sz = cells(a) + cells(b) + 2 * n_
+        cs.append((f"product:coo@coo:{n_}", {"op": "product", "kind": "matmul", "a": a, "b": b}, ref_matmul(a, b), 90, None, sz))
+        cs.append((f"product:gcxs@gcxs:{n_}", {"op": "product", "kind": "matmul", "a": a, "b": b, "format_a": G0, "format_b": G0, "untraced": True}, ref_matmul(a, b), 90, None, sz))
     sa = rand_coo(rng, (50, 50), 30)
     sb = rand_coo(rng, (50, 50), 30)
     cs.append(("product:coo@coo:jit", {"op": "product", "kind": "matmul", "a": sa, "b": sb, "slow_lane": True}, ref_matmul(sa, sb), 150, None, None))
-    cs.append(("product:coo@coo:huge", {"op": "product", "kind": "matmul", "a": x2, "b": b2, "slow_lane": True}, ref_matmul(x2, b2), 8 if quick else 30,
-               "F-c16-dot-rows-times-cols", size2))
-    if not quick:
-        cs.append(("product:gcxs@gcxs:jit", {"op": "product", "kind": "matmul", "a": sa, "b": sb, "format_a": G0, "format_b": G0, "slow_lane": True},
-                   ref_matmul(sa, sb), 150, None, None))
-        cs.append(("product:gcxs@gcxs:huge", {"op": "product", "kind": "matmul", "a": x2, "b": b2, "format_a": G0, "format_b": G0, "slow_lane": True},
-                   ref_matmul(x2, b2), 30, "F-c16-dot-rows-times-cols", size2))
+    cs.append(("product:coo@coo:huge", {"op": "product", "kind": "matmul", "a": x2, "b": b2, "slow_lane": True}, ref_matmul(x2, b2), HUGE_DEADLINE, None, size2))
+    cs.append(("product:gcxs@gcxs:jit", {"op": "product", "kind": "matmul", "a": sa, "b": sb, "format_a": G0, "format_b": G0, "slow_lane": True},
+               ref_matmul(sa, sb), 150, None, None))
+    cs.append(("product:gcxs@gcxs:huge", {"op": "product", "kind": "matmul", "a": x2, "b": b2, "format_a": G0, "format_b": G0, "slow_lane": True, "untraced": True},
+               ref_matmul(x2, b2), HUGE_DEADLINE, None, size2))
     x3 = rand_coo(rng, S3, 400)
     s3 = cells(x3) + 3 * BIG
     # GCXS with several compressed axes: indptr of prod(extents)+1 cells
@@ -454,7 +468,7 @@ def run(ctx):
 
     cases = mk_cases(rng, quick)
     extra = unmodelled_cases(rng, quick)
-    # lanes: 0..3 modelled families, 4 = GCXS/DOK-format and products, 5 = the calls expected to exceed the deadline
+    # lanes: 0..3 modelled families, 4 = GCXS/DOK-format and products, 5 = the (10^6)^2 sparse @ sparse products (short deadline)
     lanes = [[] for _ in range(6)]
     where = []
     for i, c in enumerate(cases):
@@ -464,8 +478,7 @@ def run(ctx):
     for fam, w, ref, deadline, expect, size in extra:
         w = dict(w)
         slow = bool(w.pop("slow_lane", False))
-        if not slow:
-            w["warm"] = True
+        w["warm"] = True
         if ref is not None and (w.get("format") or w.get("format_a")):
             w["want_coo"] = True
         ln = 5 if slow else 4
@@ -603,9 +616,19 @@ def run(ctx):
             msg = f"tracemalloc peak {a.get('peak')} bytes exceeds {C_MAX}*8*size (size {size} = stored cells in/out + Σ shape)"
             ctx.fail("C", fam, desc, msg, finding=findings.classify(PID, fam, desc, msg))
 
-    # cost of the product kernels against their time: reported
-    cr = ctx.driver.run([["cost", "dot_csr_csr", [n_, n_], 50, 50] for n_ in (20000, 40000, 80000, BIG)])
-    ctx.notes["dot_cost_model"] = {str(n_): o.get("ok", {}).get("cost") for n_, o in zip((20000, 40000, 80000, BIG), cr)}
+    # cost of the product kernels (Cost.dotCsrCsr on the sizes of each 2-d @ 2-d case) against opCost_sparse_bound, and their time
+    pk = [(fam, w, ref) for fam, w, ref, _, _, _ in extra if w.get("op") == "product" and len(w["a"]["shape"]) == 2 and len(w["b"]["shape"]) == 2]
+    cr = ctx.driver.run([["cost", "dot_csr_csr", [w["a"]["shape"][0], w["b"]["shape"][1]], len(ref[1]), matmul_work(w["a"], w["b"])] for _, w, ref in pk])
+    dcm = {}
+    for (fam, w, ref), o in zip(pk, cr):
+        co = o.get("ok")
+        if not co:
+            ctx.fail("A", "cost:product", {"family": fam}, f"driver rejected the cost request: {o}")
+            continue
+        dcm[fam] = dict(co, secs=timing.get(fam, {}).get("secs"))
+        if co["cost"] > co["K"] * co["size"]:
+            ctx.fail("A", "cost:product", {"family": fam}, f"opCost {co['cost']} exceeds K*size = {co['K']}*{co['size']} (contradicts dot_csr_csr_cost_bound)")
+    ctx.notes["dot_cost_model"] = dcm
     ctx.notes["peak_over_8_opCost"] = {f: {"max": max(v), "median": sorted(v)[len(v) // 2], "n": len(v)} for f, v in ratios.items()}
     ctx.notes["calibrated_c"] = C_MAX
     ctx.notes["unmodelled_timing"] = timing
